@@ -347,8 +347,13 @@ def record_identifier_invariant(ctx, rule):
     return ok_all
 
 
-def panic_audit(ctx, rule="C09.R3", only=None):
+def panic_audit(ctx, rule="C09.R3", only=None, sessions_ok=None):
+    """sessions_ok: verdict of the evaluated session tables (C10.R1) when the caller has computed them; the session
+    functions' sites are then discharged by that evaluation (a panic on any script is a violation there). Under C09 they
+    are listed as decided under C10."""
     f = ctx.facts
+    session_paths = {x.path for root in ("net::codec::BobState::run", "net::codec::run_alice", "net::codec::BobState::into_outcome") if root in f.bodies
+                     for x in f.scope(root, prefix="net::codec::")}
     inv_ok = None
     n = 0
     counters = {}
@@ -363,6 +368,18 @@ def panic_audit(ctx, rule="C09.R3", only=None):
         if not sites:
             continue
         ctx.touch(b)
+        if b.path in session_paths and b.path not in evaluated:
+            for bi, t, cls in sites:
+                n += 1
+                short = (t["f"].get("name") if t["k"] == "call" else "BoundsCheck")
+                idx = counters.get((b.path, cls + short), 0)
+                counters[(b.path, cls + short)] = idx + 1
+                if sessions_ok is None:
+                    ctx.ok(rule, b.path, "%s.%s#%d" % (cls, short, idx), "session function: decided by the evaluated session tables of C10.R1 (every script, a panic is a violation there)", t["sp"])
+                else:
+                    ctx.check(sessions_ok, rule, b.path, "%s.%s#%d" % (cls, short, idx), "discharged by the evaluated session tables (C10.R1): no script panics" if sessions_ok
+                              else "panic site in a session function whose evaluated table reports a panic or is not evaluable", t["sp"])
+            continue
         if b.path in evaluated:
             # the codec functions (and their private helpers) are decided by evaluation over a buffer model in which
             # every out-of-bounds index, failed unwrap/expect and over-long advance diverges: a panic there fails C09.R1/R2
@@ -458,7 +475,7 @@ def panic_audit(ctx, rule="C09.R3", only=None):
         raise mir.AnchorMissing("panic-site inventory found %d sites, fewer than 18 (30 confirmed by hand on the pinned tree)" % n)
     if only is not None and n < 4:
         raise mir.AnchorMissing("panic-site inventory (session functions) found %d sites, fewer than 4 (8 confirmed by hand on the pinned tree)" % n)
-    ctx.floor(rule, 8)
+    ctx.floor(rule, 8 if only is None else 3)
 
 
 def r3(ctx):
